@@ -120,7 +120,7 @@ def apply(prog, fault, level=0, nsite=[0]):
         elif fault[2] == "lazy":
             struct[1] = ["lazy", site, "raise"]
         else:
-            struct[1] = ["junk", ["int", "str", "set", "nt", "obj"][fault[1] % 5]]
+            struct[1] = ["junk", ["int", "str", "set", "nt", "obj", "nt_none", "odict", "ddict", "listsub"][fault[1] % 9]]
         where = (nid, top)
     elif kind == "raise":
         block, i, nid, top = slots[fault[1]]
